@@ -769,7 +769,12 @@ class FieldValueMultiple(FieldValueBase):
         cls._parse_basic_params(attr_to_component_name_dict, attr_fields_dict_basic, components, params)
         cls._parse_extensions(attr_to_component_name_dict, extension, components, params)
 
-        return cls(**params), len(parsable)
+        try:
+            parsed_object = cls(**params)
+        except (TypeError, ValueError) as e:
+            six.raise_from(InvalidValue(bytes(parsable), cls), e)
+
+        return parsed_object, len(parsable)
 
     def compose(self):
         composer = ComposerText()
